@@ -70,16 +70,47 @@ def ref_semi(lines):
         return Sym('raise')
 
 
+ORACLE_TIMEOUTS = []     # source blocks on which the implementation-side oracle did not return (per process)
+
+
+class _OracleTimeout(BaseException):
+    pass
+
+
+def _oracle_alarm(signum, frame):
+    raise _OracleTimeout()
+
+
 def ref_dirs(lines):
     """list(Directive.extract('\\n'.join(lines))) as data (xdoctest's extractor; the
-    text -> directive layer is compared separately in C04)"""
+    text -> directive layer is compared separately in C04).  This is the one oracle that runs code of /repo, so it is
+    bounded: an extractor that does not return within 5 s answers 'raise' and the block is recorded in ORACLE_TIMEOUTS
+    (the callers report it); after three such blocks the extractor is not called again in this process."""
     from xdoctest import directive
+    import signal
+    import threading
+    if len(ORACLE_TIMEOUTS) >= 3:
+        ORACLE_TIMEOUTS.append(list(lines))
+        return Sym('raise')
+    guarded = threading.current_thread() is threading.main_thread()
+    if guarded:
+        old = signal.signal(signal.SIGALRM, _oracle_alarm)
+        prev = signal.alarm(5)
     try:
         with warnings.catch_warnings():
             warnings.simplefilter('ignore')
             ds = list(directive.Directive.extract('\n'.join(lines)))
+    except _OracleTimeout:
+        ORACLE_TIMEOUTS.append(list(lines))
+        return Sym('raise')
     except Exception:
         return Sym('raise')
+    finally:
+        if guarded:
+            signal.alarm(0)
+            signal.signal(signal.SIGALRM, old)
+            if prev:
+                signal.alarm(prev)
     return [dir_data(d) for d in ds]
 
 
